@@ -130,6 +130,24 @@ class CHECK(Check):
                     fh.write(b"stale previous content \xe9\n" * 400)
                 f_mem.write(p_out)
                 buf = io.BytesIO() if binary else io.StringIO()
+                if len(case["content"]) % 3 == 1:
+                    # a duck-typed writer (anything with write(), e.g. a codecs stream writer or a tempfile wrapper)
+                    class Sink:
+                        closed = False
+
+                        def __init__(self, empty):
+                            self.parts, self.empty = [], empty
+
+                        def write(self, x):
+                            self.parts.append(x)
+                            return len(x)
+
+                        def getvalue(self):
+                            return self.empty.join(self.parts)
+
+                        def close(self):
+                            self.closed = True
+                    buf = Sink(b"" if binary else "")
                 f_mem.write(buf)
                 mem_out = buf.getvalue()
                 buf_open = not buf.closed
